@@ -1,7 +1,7 @@
 (* C09 - Every run ends in a solution or an honest, located failure.  Statements and `exact` only. *)
 From Coq Require Import List String Bool NArith.
 From RC Require Import lib.Pep440 lib.Name model.Merge model.Graph model.Solver model.Explain model.Check
-                       proofs.SolverP proofs.WitnessSolver proofs.SolverStatements.
+                       proofs.SolverP proofs.ChainsP proofs.WitnessSolver proofs.SolverStatements.
 Import ListNotations.
 Open Scope string_scope.
 
@@ -12,6 +12,14 @@ Theorem C09_no_candidate_is_honest_partial :
   forall c, In c (offered u r) -> ~ eligible r ap c.
 Proof. exact get_dist_none_honest. Qed.
 Print Assumptions C09_no_candidate_is_honest_partial.
+
+(* Located failure, for ALL graphs: every requirement chain reported with a failure ends at the
+   failing node, follows requirer links only, and starts at a node nobody requires (an input). *)
+Theorem C09_reported_chains_are_real :
+  forall g id p, In p (find_paths_to_root g id) ->
+  p <> [] /\ last p id = id /\ chain g p /\ (forall a, hd_error p = Some a -> is_input_node g a).
+Proof. exact chains_real. Qed.
+Print Assumptions C09_reported_chains_are_real.
 
 (* Internal errors DO escape (five concrete universes), *)
 Theorem C09_refuted_internal_errors_escape :
